@@ -80,7 +80,7 @@ def req_to_json(ex, m, v, t=None):
                 sec, ns = int(x.get('seconds', 0)), int(x.get('nanos', 0))
                 try:
                     base = datetime.datetime(1970, 1, 1) + datetime.timedelta(seconds=sec)
-                    x = base.strftime('%Y-%m-%dT%H:%M:%S') + ('.%09d' % ns if 0 <= ns < 10**9 else '') + 'Z'
+                    x = '%04d' % base.year + base.strftime('-%m-%dT%H:%M:%S') + ('.%09d' % ns if 0 <= ns < 10**9 else '') + 'Z'
                 except Exception:
                     x = None
             if x is not None:
